@@ -123,7 +123,7 @@ func c25GenSelect(t *rapid.T) c25SelectCase {
 	perm := rapid.Permutation(c25SelTargets).Draw(t, "targets")
 	// bias: exact + interface entries that match the same message
 	if n >= 2 && rapid.Bool().Draw(t, "conflict") {
-		pairs := [][2]string{{"A", "iTagged"}, {"A", "iAudited"}, {"C", "iAudited"}, {"Reply", "iProto"}, {"Ping", "iProto"}, {"iTagged", "iAudited"}, {"B", "iTagged"}}
+		pairs := [][2]string{{"A", "iTagged"}, {"A", "iAudited"}, {"C", "iAudited"}, {"Reply", "iProto"}, {"Ping", "iProto"}, {"iTagged", "iAudited"}, {"iTagged", "iAudited"}, {"iAudited", "iTagged"}, {"B", "iTagged"}}
 		p := rapid.SampledFrom(pairs).Draw(t, "pair")
 		if rapid.Bool().Draw(t, "pair_swap") {
 			p[0], p[1] = p[1], p[0]
